@@ -1,3 +1,281 @@
-/- C01: property theorems (stub, not yet built) -/
+/-
+C01 — Simulated placements are feasible on every launch option.
+
+Property theorems only; lemmas in `Karp/Proofs/Sched.lean` (and the C12 algebra).
+Model: `Karp/Model/Sched.lean` (pod requirements, relaxation, ExistingNode.CanAdd/Add, instance-type filtering).
+Spec:  `Karp/Spec/K8sSelector.lean` (Kubernetes selector semantics) and `Karp/Spec/Admissible.lean` (whole-pass
+       admissibility, evaluated on every real scheduling pass by the `c01.pass` op).
+-/
+import Karp.Proofs.Sched
+
 namespace Karp.C01
+open Karp.Req Karp.Scn Karp.Sched Karp.Spec.K8s
+
+/-! ## Relaxation never drops the last required term -/
+
+/-- **C01_relax_sound** — one relaxation step removes either the FIRST of at least two OR-ed required terms or the
+    heaviest preferred term: the remaining required terms are a non-empty suffix of the old ones (so any node that
+    satisfies a remaining term satisfies one of the pod's original terms), and a single required term is never removed. -/
+theorem C01_relax_sound (a a' : PodAffinitySpec) (h : relaxStep a = some a') :
+    (∃ dropped, a.required = dropped ++ a'.required) ∧
+    (a.required ≠ [] → a'.required ≠ []) ∧
+    (a.required.length ≤ 1 → a'.required = a.required) := by
+  unfold relaxStep removeRequiredTerm removePreferredTerm at h
+  cases hr : a.required with
+  | nil =>
+    rw [hr] at h
+    simp only at h
+    cases hp : a.preferred with
+    | nil => rw [hp] at h; simp at h
+    | cons x xs => rw [hp] at h; simp at h; subst h; exact ⟨⟨[], by simp [hr]⟩, by simp, by intro _; simp [hr]⟩
+  | cons t1 rest =>
+    cases rest with
+    | nil =>
+      rw [hr] at h
+      simp only at h
+      cases hp : a.preferred with
+      | nil => rw [hp] at h; simp at h
+      | cons x xs => rw [hp] at h; simp at h; subst h; exact ⟨⟨[], by simp [hr]⟩, by simp [hr], by intro _; simp [hr]⟩
+    | cons t2 rest2 =>
+      rw [hr] at h
+      simp at h; subst h
+      exact ⟨⟨[t1], by simp⟩, by simp, by intro hl; simp at hl⟩
+
+/-- `n` relaxation steps (`none` once nothing is left to relax) -/
+def relaxN : Nat → PodAffinitySpec → Option PodAffinitySpec
+  | 0, a => some a
+  | n + 1, a => (relaxStep a).bind (relaxN n)
+
+/-- lifted to any number of relaxation steps -/
+theorem C01_relax_star (n : Nat) : ∀ (a a' : PodAffinitySpec), relaxN n a = some a' →
+    (∃ dropped, a.required = dropped ++ a'.required) ∧ (a.required ≠ [] → a'.required ≠ []) := by
+  induction n with
+  | zero => intro a a' h; simp [relaxN] at h; subst h; exact ⟨⟨[], by simp⟩, id⟩
+  | succ n ih =>
+    intro a a' h
+    simp only [relaxN] at h
+    cases hs : relaxStep a with
+    | none => rw [hs] at h; simp at h
+    | some a1 =>
+      rw [hs] at h
+      simp only [Option.bind_some] at h
+      obtain ⟨⟨d1, hd1⟩, hne1, _⟩ := C01_relax_sound a a1 hs
+      obtain ⟨⟨d2, hd2⟩, hne2⟩ := ih a1 a' h
+      exact ⟨⟨d1 ++ d2, by rw [hd1, hd2, List.append_assoc]⟩, fun hne => hne2 (hne1 hne)⟩
+
+/-! ## Existing nodes -/
+
+/-- the requirement Karpenter derives for a key tolerates the label's absence only if every expression of the pod on
+    that key does.  This is what the requirement REPRESENTATION cannot guarantee: it fails exactly for the two recorded
+    findings (an empty intersection read as `DoesNotExist`; `Exists`/`Gt`/`Lt` lost next to `NotIn`) — see the negation
+    witnesses below. -/
+def Faithful (es : List KExpr) : Prop :=
+  ∀ k r, (podReqs es).lookup k = some r → r.absentOk = true →
+    ∀ e ∈ es, normalizeKey e.key = k → k8sMatch e.op e.vals none = true
+
+/-- Full statement (what the property demands), WITHOUT the `Faithful` hypothesis:
+
+      existingCanAdd n p = true → ∀ e ∈ p.exprs, k8sMatch e.op e.vals (n.labels.lookup (normalizeKey e.key)) = true
+
+    It is false for the code as it is (`C01_existing_violated_*` below; both replayed on the real scheduler and
+    recorded in known_findings.json).  Proved: the statement under `Faithful`.
+
+    **C01_existing_sound_partial** — if `ExistingNode.CanAdd` accepts the pod, then every taint of the node is
+    tolerated, no host port conflicts with a port in use, the requests fit the remaining resources, and the node's
+    actual labels satisfy, under Kubernetes semantics, EVERY expression the pod's requirements were built from (node
+    selector and the chosen required term), for all nodes, pods and validated expression lists. -/
+theorem C01_existing_sound_partial (n : ExNode) (p : PodD)
+    (hvalid : ∀ e ∈ p.exprs, validExpr e = true) (hf : Faithful p.exprs)
+    (h : existingCanAdd n p = true) :
+    (∀ t ∈ n.taints, ∃ tol ∈ p.tolerations, tolerates tol t = true) ∧
+    portsFree n.ports p.ports = true ∧
+    (p.cpu ≤ n.remCPU ∧ p.mem ≤ n.remMem ∧ 1 ≤ n.remPods) ∧
+    ∀ e ∈ p.exprs, k8sMatch e.op e.vals (n.labels.lookup (normalizeKey e.key)) = true := by
+  unfold existingCanAdd at h
+  simp only [Bool.and_eq_true] at h
+  obtain ⟨⟨⟨ht, hp⟩, hfit⟩, hc⟩ := h
+  refine ⟨?_, hp, ?_, ?_⟩
+  · intro t htm
+    have := List.all_eq_true.mp ht t htm
+    obtain ⟨tol, htol, hx⟩ := List.any_eq_true.mp this
+    exact ⟨tol, htol, hx⟩
+  · simp only [fits, Bool.and_eq_true, decide_eq_true_eq] at hfit; exact ⟨hfit.1.1, hfit.1.2, hfit.2⟩
+  · -- labels
+    have hrsWF : ∀ r ∈ p.exprs.map newReq, r.WF := by
+      intro r hr
+      obtain ⟨e, he, rfl⟩ := List.mem_map.mp hr
+      exact (newReq_spec e (hvalid e he)).1
+    have hWF : ∀ q ∈ podReqs p.exprs, q.2.WF := wf_add _ [] (by intro q hq; cases hq) hrsWF
+    have hadm := compatible_labels n.labels (podReqs p.exprs) hWF hc
+    intro e he
+    obtain ⟨_, hkey, hhas⟩ := newReq_spec e (hvalid e he)
+    have hmem : newReq e ∈ p.exprs.map newReq := List.mem_map.mpr ⟨e, he, rfl⟩
+    have hsome := lookup_add_isSome (p.exprs.map newReq) [] (newReq e) hmem
+    rw [hkey] at hsome
+    cases hl : (podReqs p.exprs).lookup (normalizeKey e.key) with
+    | none => unfold podReqs at hl; rw [hl] at hsome; simp at hsome
+    | some r =>
+      have hin := lookup_mem _ _ _ hl
+      have ha := hadm _ hin
+      simp only at ha
+      cases hlab : n.labels.lookup (normalizeKey e.key) with
+      | none =>
+        rw [hlab] at ha
+        exact hf _ r hl (by simpa [Req.admits] using ha) e he rfl
+      | some v =>
+        rw [hlab] at ha
+        -- r admits v, and r's admitted values are the conjunction over all added requirements on the key
+        have hg := has_add (p.exprs.map newReq) [] (normalizeKey e.key) v
+        have hget : (Reqs.add [] (p.exprs.map newReq)).get (normalizeKey e.key) = r := by
+          rw [get_eq]; unfold podReqs at hl; rw [hl]
+        rw [hget] at hg
+        have hrv : r.has v = true := by simpa [Req.admits] using ha
+        rw [hrv] at hg
+        have hall := (Bool.and_eq_true _ _).mp hg.symm
+        have := List.all_eq_true.mp hall.2 (newReq e) (List.mem_filter.mpr ⟨hmem, by rw [hkey]; simp⟩)
+        rw [← hhas v]; exact this
+
+/-- `Faithful` holds whenever the pod has at most one expression per key (the overwhelmingly common case):
+    a single validated expression is represented exactly (`Gt`/`Lt` excepted: `Gt MaxInt` / `Lt MinInt` "match
+    nothing" and are stored as `DoesNotExist`, another instance of the empty-set finding). -/
+theorem C01_faithful_single (e : KExpr) (hv : validExpr e = true) (hgt : e.op ≠ .gt) (hlt : e.op ≠ .lt) : Faithful [e] := by
+  intro k r hl habs e' he' hk
+  simp only [List.mem_singleton] at he'
+  subst he'
+  have hspec := newReq_spec e' hv
+  -- podReqs [e'] = [(key, newReq e')]
+  have hl' : (podReqs [e']).lookup k = some (newReq e') := by
+    unfold podReqs
+    simp only [List.map_cons, List.map_nil, Reqs.add, List.foldl_cons, List.foldl_nil, lookup_add1, hspec.2.1, hk]
+    simp
+  rw [hl'] at hl
+  have hr : r = newReq e' := by simpa using hl.symm
+  subst hr
+  -- case analysis on the operator
+  unfold validExpr at hv
+  rw [Bool.and_eq_true] at hv
+  unfold newReq at habs
+  cases hop : e'.op <;> rw [hop] at hv <;> simp only [Req.new, hop] at habs
+  case notIn => simp [k8sMatch]
+  case doesNotExist => simp [k8sMatch]
+  case other => simp [validOperands] at hv
+  case in_ =>
+    exfalso
+    cases hvals : e'.vals with
+    | nil => rw [hvals] at hv; simp at hv
+    | cons x xs =>
+      rw [hvals] at habs
+      simp [pure, Except.pure, Req.absentOk, Req.operator, Req.len, card, normalizeValue, List.eraseDups_cons] at habs
+      try omega
+  case exists_ =>
+    exfalso
+    simp [pure, Except.pure, Req.absentOk, Req.operator, Req.len, card, maxInt] at habs
+  case gt => exact absurd hop hgt
+  case lt => exact absurd hop hlt
+  all_goals
+    exfalso
+    cases hvals : e'.vals with
+    | nil => rw [hvals] at hv; simp [validOperands] at hv
+    | cons x xs =>
+      rw [hvals] at habs
+      simp only [List.map_cons] at habs
+      first
+        | (split at habs <;> simp [pure, Except.pure, Req.absentOk, Req.operator, Req.len, card, maxInt, doesNotExist] at habs; done)
+        | (simp [pure, Except.pure, Req.absentOk, Req.operator, Req.len, card, maxInt] at habs; done)
+
+/-- **C01_existing_capacity** — over any sequence of pods accepted and added one after the other, the remaining
+    resources never go negative: the sum of the accepted requests stays within what was available. -/
+theorem C01_existing_capacity (ps : List PodD) : ∀ (n : ExNode),
+    0 ≤ n.remCPU → 0 ≤ n.remMem → 0 ≤ n.remPods →
+    (ps.foldl (fun (acc : Option ExNode) p => acc.bind (fun m => if existingCanAdd m p then some (existingAdd m p) else none)) (some n)
+      = some m') → 0 ≤ m'.remCPU ∧ 0 ≤ m'.remMem ∧ 0 ≤ m'.remPods := by
+  induction ps with
+  | nil => intro n h1 h2 h3 h; simp at h; subst h; exact ⟨h1, h2, h3⟩
+  | cons p rest ih =>
+    intro n h1 h2 h3 h
+    simp only [List.foldl_cons, Option.bind_some] at h
+    by_cases hc : existingCanAdd n p = true
+    · simp only [hc, if_true] at h
+      have hfit : (p.cpu ≤ n.remCPU ∧ p.mem ≤ n.remMem) ∧ 1 ≤ n.remPods := by
+        unfold existingCanAdd at hc
+        simp only [Bool.and_eq_true] at hc
+        have := hc.1.2
+        simpa only [fits, Bool.and_eq_true, decide_eq_true_eq] using this
+      exact ih (existingAdd n p) (by simp [existingAdd]; omega) (by simp [existingAdd]; omega) (by simp [existingAdd]; omega) h
+    · simp only [hc, Bool.false_eq_true, if_false] at h
+      have : ∀ (l : List PodD), l.foldl (fun (acc : Option ExNode) p => acc.bind (fun m => if existingCanAdd m p then some (existingAdd m p) else none)) none = none := by
+        intro l; induction l with
+        | nil => rfl
+        | cons x xs ihx => simpa using ihx
+      rw [this] at h; cases h
+
+/-! ## New NodeClaims: the instance types that survive filtering -/
+
+/-- **C01_filter_sound** — every instance type that survives `filterInstanceTypesByRequirements` was one of the options,
+    is compatible with the requirements, belongs to a daemon-overhead group whose host ports do not clash with the
+    pod's, fits the summed requests PLUS that group's daemon overhead, and has an available offering compatible with
+    the requirements. -/
+theorem C01_filter_sound (options : List ITM) (groups : List Group) (R : Reqs) (pp : List HostPort)
+    (cpu mem pods : Int) (wk : List String) (it : ITM)
+    (h : it ∈ filterITs options groups R pp cpu mem pods wk) :
+    it ∈ options ∧ itCompatible it R = true ∧
+    ∃ g ∈ groups, g.its.contains it.name = true ∧ portsFree g.ports pp = true ∧
+      ((cpu + g.dCPU ≤ it.allocCPU ∧ mem + g.dMem ≤ it.allocMem) ∧ pods + g.dPods ≤ it.allocPods) ∧
+      ∃ o ∈ it.offerings, o.available = true ∧ R.compatible o.reqs wk = true := by
+  unfold filterITs at h
+  obtain ⟨g, hg, hin⟩ := List.mem_flatMap.mp h
+  by_cases hp : portsFree g.ports pp = true
+  · simp only [hp, Bool.not_true, Bool.false_eq_true, if_false] at hin
+    obtain ⟨hin1, hcond⟩ := List.mem_filter.mp hin
+    obtain ⟨hopt, hname⟩ := List.mem_filter.mp hin1
+    rw [Bool.and_eq_true] at hcond
+    obtain ⟨hcompat, hfits⟩ := hcond
+    unfold itFits at hfits
+    simp only [Bool.and_eq_true] at hfits
+    obtain ⟨hoff, hres⟩ := hfits
+    obtain ⟨o, ho, hoc⟩ := List.any_eq_true.mp hoff
+    obtain ⟨ho1, ho2⟩ := List.mem_filter.mp ho
+    exact ⟨hopt, hcompat, g, hg, hname, hp, by simpa only [fits, Bool.and_eq_true, decide_eq_true_eq] using hres, o, ho1, ho2, hoc⟩
+  · simp [hp] at hin
+
+/-! ## The recorded findings: the full statement is false for the code as it is -/
+
+def nodeNoTeam : ExNode := { labels := [("kubernetes.io/hostname", "n1")], taints := [], remCPU := 4000, remMem := 4096, remPods := 10, ports := [] }
+
+/-- F1 `empty-set-read-as-absent`: nodeSelector `team=blue` together with a required `team In [red]` — no node can
+    satisfy both, yet the node WITHOUT a `team` label is accepted -/
+def podContradictory : PodD :=
+  { cpu := 100, mem := 64, tolerations := [], ports := [],
+    exprs := [{ key := "team", op := .in_, vals := ["blue"] }, { key := "team", op := .in_, vals := ["red"] }] }
+
+theorem C01_existing_violated_empty_set :
+    existingCanAdd nodeNoTeam podContradictory = true ∧
+    k8sMatch .in_ ["blue"] (nodeNoTeam.labels.lookup "team") = false := by decide
+
+/-- F2 `presence-lost-with-notin`: `tier Exists` together with `tier NotIn [gold]` — the node has no `tier` label -/
+def podExistsNotIn : PodD :=
+  { cpu := 100, mem := 64, tolerations := [], ports := [],
+    exprs := [{ key := "tier", op := .exists_, vals := [] }, { key := "tier", op := .notIn, vals := ["gold"] }] }
+
+theorem C01_existing_violated_presence_lost :
+    existingCanAdd nodeNoTeam podExistsNotIn = true ∧
+    k8sMatch .exists_ [] (nodeNoTeam.labels.lookup "tier") = false := by decide
+
+/-! ## Non-vacuity -/
+
+def nodeZ : ExNode :=
+  { labels := [("topology.kubernetes.io/zone", "z1"), ("team", "red"), ("kubernetes.io/hostname", "n1")],
+    taints := [{ key := "dedicated", value := "x", effect := "NoSchedule" }], remCPU := 1000, remMem := 1024, remPods := 2,
+    ports := [{ port := 8080, proto := "TCP", ip := "" }] }
+def podOK : PodD :=
+  { cpu := 500, mem := 512, tolerations := [{ key := "dedicated", operator := "Exists", value := "", effect := "" }],
+    ports := [{ port := 8081, proto := "TCP", ip := "" }],
+    exprs := [{ key := "failure-domain.beta.kubernetes.io/zone", op := .in_, vals := ["z1", "z2"] }, { key := "team", op := .notIn, vals := ["blue"] }] }
+
+example : existingCanAdd nodeZ podOK = true := by decide
+example : existingCanAdd nodeZ { podOK with cpu := 1001 } = false := by decide
+example : existingCanAdd nodeZ { podOK with ports := [{ port := 8080, proto := "TCP", ip := "10.0.0.1" }] } = false := by decide
+example : existingCanAdd nodeZ { podOK with tolerations := [] } = false := by decide
+example : (∀ e ∈ podOK.exprs, validExpr e = true) := by decide
+
 end Karp.C01
